@@ -84,7 +84,7 @@ def gen_case(rng, i, tier):
     sizes = {d: (sizes_all[d] if d in sizes_all else extra[d]) for d in dims}
     desc.update({"op": op, "opax": opax, "to": to, "dims": dims,
                  "call": {"boundary": rng.choice(gen.RULES), "fill_value": rng.choice(FILLS)},
-                 "keep_coords": rng.choice([None, None, True, False])})
+                 "keep_coords": rng.choice([None, None, True, False]), "vector_form": rng.random() < 0.25})
     chunks = rand_chunks(rng, sizes)
     if op == "ufunc":
         a = opax[0]
@@ -133,7 +133,12 @@ def setup_simple(desc):
     involved = {p for a in opax for p in (desc["pos"][a], to[a])}
     if op in ("diff", "interp", "min", "max", "cumsum"):
         kc = {} if desc.get("keep_coords") is None else {"keep_coords": desc["keep_coords"]}
-        fn = lambda x: getattr(g, op)(x, axarg, to=to, **call, **kc)  # noqa: E731
+        if desc.get("vector_form") and op != "cumsum" and len(opax) == 1:
+            # the vector spelling {axis: component}: on a grid without face connections it is the component alone,
+            # and lazy vector inputs are accepted wherever in-memory ones are
+            fn = lambda x: getattr(g, op)({opax[0]: x}, opax[0], to=to[opax[0]], **call, **kc)  # noqa: E731
+        else:
+            fn = lambda x: getattr(g, op)(x, axarg, to=to, **call, **kc)  # noqa: E731
     elif op == "derivative":
         fn = lambda x: g.derivative(x, opax[0], to=to[opax[0]], **call)  # noqa: E731
     elif op == "integrate":
@@ -222,7 +227,7 @@ def run_case(ctx, desc):
         shifts = [("center", desc["to"])] if not desc["vector"] else [(desc["to"], "center")]
     else:
         ds, g, data, fn, core_dims, involved = setup_simple(desc)
-        opname = desc["op"] + (":" + desc["dask_mode"] if desc["op"] == "ufunc" else "") + (":" + desc["mw_base"] if desc["op"] == "mw" else "")
+        opname = ("vector-" if desc.get("vector_form") and desc["op"] in ("diff", "interp", "min", "max") and len(desc["opax"]) == 1 else "") + desc["op"] + (":" + desc["dask_mode"] if desc["op"] == "ufunc" else "") + (":" + desc["mw_base"] if desc["op"] == "mw" else "")
         shifts = [(desc["pos"][a], desc["to"][a]) for a in desc["opax"]]
     # inputs may carry a (dask-backed) non-index coordinate whose chunking has nothing to do with the data's
     lc = desc.get("lazy_coord")
